@@ -905,7 +905,7 @@ pub fn run(ctx: &Ctx) -> Report {
     let mut rep = Report::new("model_checking");
     let thorough = ctx.tier.is_thorough();
     let reqs = requests(thorough);
-    let maxd = if thorough { 4 } else { 3 };
+    let maxd = if thorough { 5 } else { 3 };
     let mut corpora: Vec<Vec<usize>> = vec![];
     for nd in 1..=maxd {
         for ms in crate::qmodel::multisets(8, nd) {
@@ -976,7 +976,7 @@ pub fn run(ctx: &Ctx) -> Report {
     rep.set("exhaustive", done == work.len() && donel == lwork.len());
     rep.set("corpora", corpora.len() as u64);
     rep.set("requests", reqs.len() as u64);
-    rep.set("rule", "every multiset of 1..3 (thorough 4, thinned) documents over an 8-document alphabet (negative / fractional / boundary values, missing fields, a multi-valued document with a duplicate value) x ~200 aggregation requests (6 metrics with / without missing, extended stats, cardinality, percentiles, terms with order / size / min_doc_count / missing, ranges, histograms with interval / offset / min_doc_count / hard and extended bounds, date histograms, filter, composite, top_hits, depth-2 nestings) x 3 filtering queries: (a) direct evaluation of the request over the model documents (metrics, terms, range, histogram and their nestings), (b) every contiguous split into <= 3 segments, (c) the same split as separate indexes whose intermediate results are merged in every order and two groupings, with and without a postcard round trip; all must equal the single-segment result. Large-segment family: 130 / 2500 / 4200 (thorough also 2049, 9000) documents over a 64-entry alphabet (negative minimum, later-appearing buckets, missing values) x 31 bucket requests with nested metrics and buckets (histograms, date histograms, terms, ranges, filter) x up to 3 queries, with the same three oracles over splits {halves, 64-doc head, 1-doc tail}. Non-trivial: >= 2 documents; distinct by (corpus, request, query)");
+    rep.set("rule", "every multiset of 1..3 (thorough 5) documents over an 8-document alphabet (negative / fractional / boundary values, missing fields, a multi-valued document with a duplicate value) x ~200 aggregation requests (6 metrics with / without missing, extended stats, cardinality, percentiles, terms with order / size / min_doc_count / missing, ranges, histograms with interval / offset / min_doc_count / hard and extended bounds, date histograms, filter, composite, top_hits, depth-2 nestings) x 3 filtering queries: (a) direct evaluation of the request over the model documents (metrics, terms, range, histogram and their nestings), (b) every contiguous split into <= 3 segments, (c) the same split as separate indexes whose intermediate results are merged in every order and two groupings, with and without a postcard round trip; all must equal the single-segment result. Large-segment family: 130 / 2500 / 4200 (thorough also 2049, 9000) documents over a 64-entry alphabet (negative minimum, later-appearing buckets, missing values) x 31 bucket requests with nested metrics and buckets (histograms, date histograms, terms, ranges, filter) x up to 3 queries, with the same three oracles over splits {halves, 64-doc head, 1-doc tail}. Non-trivial: >= 2 documents; distinct by (corpus, request, query)");
     for k in ["direct_comparisons", "segmentations", "distributed_merges"] {
         if st.counters.get(k).copied().unwrap_or(0) == 0 {
             rep.machinery_errors.push(format!("vacuous: {k} = 0"));
